@@ -974,9 +974,12 @@ where
 		}
 	};
 
+	// Hand the result over and wait until the shutdown task has recorded it before the front-end channel is
+	// closed, otherwise callers that notice the closed channel first can't find the disconnect reason.
+	let _ = close_tx.send(res).await;
+	close_tx.closed().await;
 	from_frontend.close();
 	let _ = sender.close().await;
-	let _ = close_tx.send(res).await;
 }
 
 struct ReadTaskParams<R: TransportReceiverT, S> {
